@@ -357,6 +357,16 @@ func universes(thorough bool) []*universe {
 	}, slots3, restartVs, map[int][]int{0: {4}, 1: {0, 4}, 2: {0}})
 	r3.Preload = []preSvc{{0, 4, []string{"10.0.0.0"}, "a", false}, {1, 0, nil, "", false}}
 	us = append(us, r3)
+	// the same start, small: the write that records the topped-up family is refused and the Service changes (to single
+	// stack, to another request) before the retry - user events are offered while only that retry is pending
+	r3b := mkUniverse("prefer-topup-retry", ns12[:1], [][]metallbv1beta1.IPAddressPool{
+		{mkPool("a", []string{"10.0.0.0/31", "fc00::/127"}, nil)},
+	}, slots3[:2], []namedVariant{{"prefer46", mkSvc(families(v1.IPFamilyPolicyPreferDualStack, "192.168.9.1", "fd00::1"))}, {"auto", mkSvc()},
+		{"single6", mkSvc(families(v1.IPFamilyPolicySingleStack, "fd00::1"))}, {"require", mkSvc(families(v1.IPFamilyPolicyRequireDualStack, "192.168.9.1", "fd00::1"))}},
+		map[int][]int{0: {0, 1, 3}, 1: {1, 2}})
+	r3b.Preload = []preSvc{{0, 0, []string{"10.0.0.0"}, "a", false}}
+	r3b.RetryUserEvents = true
+	us = append(us, r3b)
 	// the same PreferDualStack service next to a dual-stack service that recorded both of its addresses (the first sync
 	// re-asserts services with more recorded addresses first, so the top-up cannot take the recorded IPv6 address)
 	r4 := mkUniverse("restart-prefer-topup+dualstack", ns12[:1], [][]metallbv1beta1.IPAddressPool{
